@@ -683,7 +683,43 @@ def attr_writes(repo, cls, fn, defcls, must, seen=None, depth=0):
     return res
 
 
+def phase_reference(repo):
+    """Name of the attribute that holds the phase reference: the attribute of self whose first element ``_align_seasonal`` relates to
+    the first index element of the series it is given (``<series>.index[0]`` vs ``self.<ref>[0]`` in the same call / difference).
+    Discovered from the code, never assumed by name."""
+    cls = repo.cls(DES + ":Deseasonalizer")
+    hit = repo.lookup_method(cls, "_align_seasonal")
+    if hit is None:
+        raise AnalysisError("anchor missing: Deseasonalizer._align_seasonal")
+    k, fn = hit
+    ps = astq.param_names(fn, True)
+    if not ps:
+        raise AnalysisError("Deseasonalizer._align_seasonal takes no series")
+    y = ps[0]
+    cands = set()
+    for ret in astq.returns(fn):
+        if ret.value is None:
+            continue
+        v = astq.inline_locals(fn, ret.value)
+        for n in ast.walk(v):
+            groups = []
+            if isinstance(n, ast.Call):
+                groups.append(list(n.args) + [kw.value for kw in n.keywords])
+            elif isinstance(n, ast.BinOp) and isinstance(n.op, ast.Sub):
+                groups.append([n.left, n.right])
+            for g_ in groups:
+                has_y = any(astq.canon(a) == "%s.index[0]" % y for a in g_)
+                refs = [a.value.attr for a in g_ if isinstance(a, ast.Subscript) and astq.const_value(a.slice) == 0
+                        and astq.is_self_attr(a.value, "self")]
+                if has_y:
+                    cands |= set(refs)
+    if len(cands) != 1:
+        raise AnalysisError("cannot identify the phase reference of Deseasonalizer._align_seasonal (candidates: %s)" % sorted(cands))
+    return cands.pop()
+
+
 def check_phase(ctx, repo):
+    REF = phase_reference(repo)
     base = repo.cls(DES + ":Deseasonalizer")
     classes = [base] + [c for c in repo.subclasses(base)]
     n = 0
@@ -697,27 +733,27 @@ def check_phase(ctx, repo):
                 continue  # constructors / private setters are judged through the public methods that call them
             k, fn = repo.lookup_method(c, mn)
             may = attr_writes(repo, c, fn, k, must=False)
-            if "_y_index" not in may and "seasonal_" not in may:
+            if REF not in may and "seasonal_" not in may:
                 continue
             n += 1
             tag = "%s.%s" % (c.name, mn)
             loc = ctx.loc(k.module, fn)
             must = attr_writes(repo, c, fn, k, must=True)
-            if "_y_index" in may:
+            if REF in may:
                 ok = "seasonal_" in must
                 ctx.check(ok, "R3", tag + ":pair", "rebinds the phase reference and re-estimates seasonal_ on every path",
-                          "%s rebinds the phase reference `_y_index` without re-estimating `seasonal_`: afterwards _align_seasonal measures the "
+                          "%s rebinds the phase reference (the index stored on self that _align_seasonal measures offsets from) without re-estimating `seasonal_`: afterwards _align_seasonal measures the "
                           "offset from the new series while seasonal_[0] still belongs to the first training time point (phase is wrong unless the "
                           "new series starts a multiple of sp after the old one)" % tag, loc,
                           witness={"may_write": sorted(may), "must_write": sorted(must)})
                 direct = any(a == "seasonal_" for a, _, _ in astq.self_attr_stores(fn))
                 if ok and direct:
                     # both come from the same series: the argument of _set_y_index and the series seasonal_ is estimated from
-                    ctx.check(same_series(repo, c, fn, k), "R3", tag + ":same-series",
+                    ctx.check(same_series(repo, c, fn, k, REF), "R3", tag + ":same-series",
                               "phase reference and seasonal_ are taken from the same series",
                               "%s takes the phase reference and seasonal_ from different series" % tag, loc)
             elif "seasonal_" in may:
-                ctx.violation("R3", tag + ":pair", "%s re-estimates seasonal_ without moving the phase reference _y_index" % tag, loc)
+                ctx.violation("R3", tag + ":pair", "%s re-estimates seasonal_ without moving the phase reference self.%s" % (tag, REF), loc)
         # state derived from the phase pair (caches) is invalidated wherever the pair is re-estimated
         stale = derived_state(repo, c)
         seen = set()
@@ -795,18 +831,18 @@ def derived_state(repo, cls):
     return out
 
 
-def same_series(repo, cls, fn, defcls):
+def same_series(repo, cls, fn, defcls, REF):
     """the series whose index becomes the reference == the series seasonal_ is estimated from (after local inlining)"""
     selfname = astq.param_names(fn)[0]
     ref_args, est_srcs = [], []
     for n in ast.walk(fn):
         if isinstance(n, ast.Call) and isinstance(n.func, ast.Attribute) and isinstance(n.func.value, ast.Name) and n.func.value.id == selfname:
             hit = repo.lookup_method(cls, n.func.attr)
-            if hit and "_y_index" in attr_writes(repo, cls, hit[1], hit[0], must=False) and n.args:
+            if hit and REF in attr_writes(repo, cls, hit[1], hit[0], must=False) and n.args:
                 ref_args.append(astq.canon(astq.inline_locals(fn, n.args[0])))
         if isinstance(n, ast.Assign):
             for t in n.targets:
-                if astq.is_self_attr(t, selfname, "_y_index"):
+                if astq.is_self_attr(t, selfname, REF):
                     v = astq.inline_locals(fn, n.value)
                     if isinstance(v, ast.Attribute) and v.attr == "index":
                         ref_args.append(astq.canon(v.value))
@@ -846,6 +882,7 @@ class Cong:
 
 
 def check_alignment(ctx, repo):
+    REF = phase_reference(repo)
     cls = repo.cls(DES + ":Deseasonalizer")
     fn = repo.func(DES, "Deseasonalizer._align_seasonal")
     mod = repo.module(DES)
@@ -950,7 +987,7 @@ def check_alignment(ctx, repo):
         c = astq.canon(e)
         if c == "%s.index[0]" % y:
             return Lin.sym("first(y)")
-        if c == "self._y_index[0]":
+        if c == "self.%s[0]" % REF:
             return Lin.sym("first(train)")
         if isinstance(e, ast.Attribute) and astq.is_self_attr(e, "self"):
             return Lin.sym("self." + e.attr)
